@@ -183,8 +183,12 @@ func headDiffs(s *dagm.Sess, want dagm.State) ([]string, error) {
 		wantHead[fmt.Sprintf("%d:%s", h.Root, h.Branch)] = h.Node
 	}
 	roots := []int{}
+	deadRoot := map[int]bool{}
+	for _, r := range want.Dead {
+		deadRoot[r] = true
+	}
 	for i, k := range want.Kind {
-		if k == "root" {
+		if k == "root" && !deadRoot[i+1] {
 			roots = append(roots, i+1)
 		}
 	}
@@ -238,27 +242,9 @@ func compareState(s *dagm.Sess, want dagm.State, heads bool) ([]string, error) {
 	return d, nil
 }
 
-func checkC07(c *Ctx) int {
-	run := ev.NewRun("C07", c.Tier, "model_checking")
-	t0 := time.Now()
-	mcNodes := c.pick(4, 5)
-	// 1. model-check the intended design (with refused requests as stuttering transitions)
-	mcCfg := "SPECIFICATION Spec\n" + dagConstants(mcNodes, 2, 3, true) +
-		"VIEW View\nINVARIANTS Inv_C07\nPROPERTIES Act_C07_RejectIsStutter Act_Monotone\nCHECK_DEADLOCK FALSE\n"
-	mc := c.MustModelCheck(tlc.Opts{Module: "DvidDAG_mc", Config: "gen_mc.cfg",
-		Files: map[string][]byte{"gen_mc.cfg": []byte(mcCfg)}, Timeout: 30 * time.Minute})
-	run.Set("states", mc.Distinct)
-	run.Set("transitions", mc.Generated)
-	run.Set("tlc_model", fmt.Sprintf("DvidDAG MaxNodes=%d MaxRepos=2 MaxParents=3 Branches={a,b} UUIDPool={ua} rejects=on; Inv_C07, Act_C07_RejectIsStutter, Act_Monotone", mcNodes))
 
-	// 2. transition cover of the accepted graph, and refused requests per state
-	accNodes := c.pick(4, 5)
-	accRepos := c.pick(2, 1)
-	g, _ := emitDagGraph(c, accNodes, accRepos, 3)
-	rejNodes := c.pick(3, 4)
-	nrej := emitDagRejects(c, g, rejNodes, c.pick(2, 1), 3)
-	run.Set("replay_graph", fmt.Sprintf("accepted: MaxNodes=%d MaxRepos=%d -> %d states, %d edges; refused requests on states with < %d nodes: %d", accNodes, accRepos, len(g.states), len(g.edges), rejNodes, nrej))
-
+// replayDagGraph replays every accepted edge and every refused request of one emitted graph.
+func replayDagGraph(c *Ctx, run *ev.Run, g *dagGraph, nAccepted, nRejected, nStates *int64) {
 	workers := 16
 	ws := make([]*dagWorker, workers)
 	for i := range ws {
@@ -269,7 +255,6 @@ func checkC07(c *Ctx) int {
 			w.close()
 		}
 	}()
-	var nAccepted, nRejected, nStates int64
 	report := func(d c07Divergence) {
 		run.Violation("c07", d)
 	}
@@ -313,7 +298,8 @@ func checkC07(c *Ctx) int {
 				must(err, "project")
 				run.Eval("rej|" + op.Op + "|" + key[:0] + fmt.Sprint(ki) + "|" + op.Key())
 				bad := false
-				if ok {
+				neutral := map[string]bool{"note": true, "log": true, "repolog": true, "newinstance": true, "renameinstance": true, "deleteinstance": true}[op.Op]
+				if ok && !neutral {
 					// Apply registered a new node; the specification refuses this request
 					bad = true
 					d = append([]string{fmt.Sprintf("request %s accepted (status 200) though the specification refuses it", op.Key())}, d...)
@@ -329,7 +315,7 @@ func checkC07(c *Ctx) int {
 						return
 					}
 				}
-				atomic.AddInt64(&nRejected, 1)
+				atomic.AddInt64(nRejected, 1)
 			}
 		}
 		// (b) accepted edges
@@ -355,12 +341,44 @@ func checkC07(c *Ctx) int {
 			if len(d) > 0 {
 				report(c07Divergence{Kind: "state-mismatch-after-accepted-request", Path: path, Op: e.L, Expected: e.T, Diffs: d, Script: s.Script})
 			}
-			if atomic.AddInt64(&nAccepted, 1)%2000 == 1 {
+			if atomic.AddInt64(nAccepted, 1)%2000 == 1 {
 				run.Sample(map[string]interface{}{"path": path, "request": e.L, "expected_state": e.T})
 			}
 		}
-		atomic.AddInt64(&nStates, 1)
+		atomic.AddInt64(nStates, 1)
 	})
+}
+
+func checkC07(c *Ctx) int {
+	run := ev.NewRun("C07", c.Tier, "model_checking")
+	t0 := time.Now()
+	mcNodes := c.pick(4, 5)
+	// 1. model-check the intended design (with refused requests as stuttering transitions)
+	mcCfg := "SPECIFICATION Spec\n" + dagConstants(mcNodes, 2, 3, true) +
+		"VIEW View\nINVARIANTS Inv_C07\nPROPERTIES Act_C07_RejectIsStutter Act_Monotone\nCHECK_DEADLOCK FALSE\n"
+	mc := c.MustModelCheck(tlc.Opts{Module: "DvidDAG_mc", Config: "gen_mc.cfg",
+		Files: map[string][]byte{"gen_mc.cfg": []byte(mcCfg)}, Timeout: 30 * time.Minute})
+	run.Set("states", mc.Distinct)
+	run.Set("transitions", mc.Generated)
+	run.Set("tlc_model", fmt.Sprintf("DvidDAG MaxNodes=%d MaxRepos=2 MaxParents=3 Branches={a,b} UUIDPool={ua} rejects=on; Inv_C07, Act_C07_RejectIsStutter, Act_Monotone", mcNodes))
+
+	// 2. transition cover of the accepted graphs, and refused requests per state.  Two graphs:
+	// one repo with more nodes (branching/merging depth) and two repos with fewer nodes
+	// (repo deletion, foreign-repo parents, UUID reuse across repos).
+	type gcfg struct{ nodes, repos, rejNodes int }
+	cfgs := []gcfg{{c.pick(4, 5), 1, c.pick(0, 4)}, {c.pick(3, 4), 2, c.pick(3, 4)}}
+	var nAccepted, nRejected, nStates int64
+	var descr []string
+	for _, gc := range cfgs {
+		g, _ := emitDagGraph(c, gc.nodes, gc.repos, 3)
+		nrej := 0
+		if gc.rejNodes > 0 {
+			nrej = emitDagRejects(c, g, gc.rejNodes, gc.repos, 3)
+		}
+		descr = append(descr, fmt.Sprintf("MaxNodes=%d MaxRepos=%d -> %d states, %d accepted edges; refused requests on states with < %d nodes: %d", gc.nodes, gc.repos, len(g.states), len(g.edges), gc.rejNodes, nrej))
+		replayDagGraph(c, run, g, &nAccepted, &nRejected, &nStates)
+	}
+	run.Set("replay_graph", descr)
 	nTr, nEv := runKVTraces(c, run, c.pick(60, 400), c.pick(50, 80), c.pick(12, 16), false, "")
 	run.Set("random_traces_validated_by_tlc", nTr)
 	run.Set("random_trace_events", nEv)
@@ -370,6 +388,6 @@ func checkC07(c *Ctx) int {
 	run.Set("rule", "one case = one transition of the TLC state graph (accepted request) or one refused request of the argument domain at a reachable state, replayed on the real server with the projected DAG, heads and identifier maps compared before and after; distinct = distinct (state, request)")
 	run.Assume = []string{"TLC bounded model (see tlc_model)", "Badger store; single process; ServeSingleHTTP path"}
 	fmt.Printf("C07: tlc %d states; replayed %d accepted edges, %d refused requests over %d states in %.1fs; violations=%d\n",
-		mc.Distinct, nAccepted, nRejected, len(keys), since(t0), run.Violations())
+		mc.Distinct, nAccepted, nRejected, nStates, since(t0), run.Violations())
 	return run.Finish()
 }
